@@ -9,7 +9,7 @@ Decided clauses:
       Unicode Table 3-7 (well-formed UTF-8 byte sequences)
 Not decided: text-block indentation stripping, number token values, maximal-munch operator clusters.
 """
-from . import chartab, kwalk, prov
+from . import chartab, kwalk, prov, cfg
 from .facts import callee_name, pk
 
 EXPLANATION = (
@@ -394,9 +394,95 @@ def rule_r1(F, rep):
                               f.body.span(s["sp"]))
 
 
+def rule_r4(F, rep):
+    import ast as _ast
+    R = rep.rule("C14.R4", "line terminators inside a text block are copied verbatim: every constant \\r / \\n / \\r\\n appended to "
+                 "the block's value is appended on the success edge of the lexer step that consumed exactly those bytes, with "
+                 "no other consuming step in between (so the value keeps CRLF line ends where the source has them)")
+    fn = F.fn("<%s>::lex_text_block" % LEXER)
+    rep.fn(fn)
+    body = fn.body
+    P = prov.Prov(F, body)
+    succ = body.succ_map()
+    pred = body.pred_map()
+
+    def const_bytes(op):
+        if op["k"] == "const" and isinstance(op.get("v"), int):
+            return bytes([op["v"]]) if op["v"] < 256 else None
+        org = P.origins_op(op)
+        if len(org) == 1:
+            o = next(iter(org))
+            if o[0] == "const" and isinstance(o[1], str):
+                if o[1].startswith('b"'):
+                    try:
+                        return _ast.literal_eval(o[1])
+                    except Exception:
+                        return None
+                return o[1].encode()
+        return None
+    eats = {}
+    for bb, t in body.calls():
+        n = callee_name(t) or ""
+        if n.startswith("<%s>::eat_" % LEXER):
+            c = const_bytes(t["xs"][1]) if len(t["xs"]) > 1 and n.rsplit("::", 1)[1] in ("eat_byte", "eat_slice") else None
+            eats[bb] = (n.rsplit("::", 1)[1], c, t)
+    pushes = []
+    for bb, t in body.calls():
+        n = callee_name(t) or ""
+        if n in ("<alloc::string::String>::push", "<alloc::string::String>::push_str"):
+            c = const_bytes(t["xs"][1])
+            if c is not None and c and set(c) <= {13, 10}:
+                pushes.append((bb, c, t))
+    for pb, c, t in pushes:
+        # eat steps that can reach this push without another eat step in between
+        last = {}
+        seen = {pb}
+        work = [pb]
+        while work:
+            b = work.pop()
+            for q in pred.get(b, ()) if isinstance(pred, dict) else pred[b]:
+                if body.blocks[q]["cleanup"]:
+                    continue
+                if q in eats:
+                    last.setdefault(q, set()).add(b)
+                    continue
+                if q not in seen:
+                    seen.add(q)
+                    work.append(q)
+        probs = []
+        if not last:
+            probs.append("no consuming step precedes it")
+        for e, _ in last.items():
+            kind, ec, et = eats[e]
+            if ec != c:
+                probs.append("it can follow %s(%r)" % (kind, ec))
+                continue
+            # must be on the success edge: the result is switched right after the call; the push must not be
+            # reachable from the failure edge without another consuming step
+            cont = et["t"]
+            sw = body.blocks[cont]["t"] if cont is not None else None
+            if not sw or sw["k"] != "switch":
+                probs.append("%s's result is not tested before the push" % kind)
+                continue
+            fail = [tb for v, tb in sw["arms"] if v == 0]
+            blocked = [b for b in eats]
+            reach = cfg.reachable(succ, fail, blocked_nodes=blocked) if fail else set()
+            if pb in reach or pb in fail:
+                probs.append("it is reachable when %s(%r) failed" % (kind, ec))
+        ok = not probs
+        rep.ob(R, "push|%r@%s" % (c, body.span(t["sp"]).rsplit(":", 2)[-2]), ok, {"appended": repr(c), "site": body.span(t["sp"]),
+                                                                            "after": sorted("%s(%r)" % (eats[e][0], eats[e][1]) for e in last)})
+        if not ok:
+            rep.violation(R, "lex_text_block|terminator-copy|%r" % c,
+                          "lex_text_block appends %r to the text block although %s: the value no longer repeats the line "
+                          "terminator bytes of the source" % (c, "; ".join(probs)), body.span(t["sp"]))
+    rep.floor(R, len(pushes), 4, "line-terminator appends in lex_text_block")
+
+
 def run(F, rep, tier):
     rule_r3(F, rep)
     rule_r2(F, rep)
     rule_r1(F, rep)
-    rep.assume("text-block stripping, number token values and operator maximal munch are behavioural and not decided")
+    rule_r4(F, rep)
+    rep.assume("text-block indentation stripping, number token values and operator maximal munch are behavioural and not decided")
     return EXPLANATION
